@@ -261,7 +261,18 @@ impl Sim {
                         out.push(finding(&["C12"], "refused request changed the client state".into()));
                     }
                 }
-                // other errors (buffer too small, ...): tolerated, nothing is asserted
+                // other errors: a buffer that is too small, or an application attribute that cannot be encoded and is not
+                // of a type the client replaces; anything else must be sendable
+                let decoded = |a: &RAttr| matches!(a, RAttr::Fp(FpSpec::Wire(_)) | RAttr::Mi(MacSpec::Wire(_)) | RAttr::MiSha256(MacSpec::Wire(_)));
+                let app_kept = crate::sim::packet::app_model(app);
+                let left_unencodable = (app_kept.3.as_ref().map(decoded).unwrap_or(false) && !self.cfg.fingerprint)
+                    || ((app_kept.1.as_ref().map(decoded).unwrap_or(false) || app_kept.2.as_ref().map(decoded).unwrap_or(false)) && self.cfg.mech == Mech::None);
+                if !max && !small_buf && !left_unencodable && self.cfg.max_tx > awaiting && !self.desync {
+                    out.push(finding(
+                        &["C13"],
+                        format!("send_request failed ({:?}) although the buffer is large and every attribute the client does not replace is encodable", e),
+                    ));
+                }
                 if !max && before.outstanding != after.outstanding {
                     out.push(finding(&["C12"], format!("failed send_request ({:?}) changed the outstanding table", e)));
                 }
